@@ -53,6 +53,14 @@ def check(run):
             t = random_transform(rng, sum(s.size for s in specs))
             run.count("transform")
         one_case(run, specs, t)
+    # tail regime: small but not negligible Gaussian product factors (where a premature screening would bite)
+    k = 0
+    for la, lb in itertools.product(range(6), repeat=2):
+        for u in (TAIL_LADDER if run.tier == "thorough" else [TAIL_LADDER[(k + j * 3) % len(TAIL_LADDER)] for j in range(2)]):
+            s1, s2 = tail_pair(rng, la, lb, u)
+            one_case(run, [s1, s2])
+            run.count("tail regime mu*R^2=%g" % u)
+        k += 1
     for l in range(6):
         hi = core.exp_cap(l)
         s1 = ShellSpec(l, [0.0, 0.0, 0.0], [hi, 0.02], [[1.0], [0.5]], sph=(l % 2 == 0))
